@@ -350,6 +350,22 @@ def run_shadow_batch(h, trees, env):
     return res
 
 
+def gen_chain_tree(rng):
+    """a function whose return slot is shared by 2-4 hooked entries of mixed kinds (tail calls: -pg function <-> PLT call),
+    optionally called from a hooked parent -> (tree, index of the operation that returns through the shared slot)"""
+    kinds = [rng.choice("MP") for _ in range(rng.choice([2, 2, 3, 4]))]
+    if rng.random() < 0.6:
+        kinds[-2:] = ["P", "M"]              # an instrumented library function called through the PLT
+    chain = Node(201, kinds[0], [], [Node(202 + i, k, [], [], rng.choice(PLAIN_FNS)) for i, k in enumerate(kinds[1:])],
+                 rng.choice(PLAIN_FNS))
+    if rng.random() < 0.5:
+        tree = Node(101, rng.choice("MPN"), [chain], [], rng.choice(PLAIN_FNS))
+    else:
+        tree = chain
+    ops, _ = full(tree)
+    return tree, [i for i, o in enumerate(ops) if o[0] == "R"][0], "".join(kinds)
+
+
 def run_stop_case(h, tree, rng):
     """run the tree up to a return that goes through a trampoline, then tell libmcount that tracing is being
     finished (STOP) and let that function return -> dict or None if the tree has no such return"""
@@ -960,6 +976,19 @@ def e2e(ctx, objdir):
         mode = ctx.rng.choice(["pg", "pg", "fentry", "patchable", "cyg"])
         jobs.append((key, {"finish": fdesc, "seed": ("finish", fseed), "threads": fdesc["nworkers"] + 1}, fsrc,
                      {"sigs": ["finish-scenario"]}, mode, "-O2", ctx.rng.choice(["finish", "finish", "plain"]), False))
+    # ... the same with the parked function's return slot shared by a PLT-hook entry and an mcount entry (instrumented shared
+    # library called through the PLT / library function tail-calling an instrumented callback): the exit hook that meets the
+    # finish request has saved plthook_return, not mcount_return
+    for gi in range(ctx.n(4, 30)):
+        gseed = ctx.rng.getrandbits(32)
+        mode = ctx.rng.choice(["pg", "pg", "fentry"])
+        opt = ctx.rng.choice(["-O1", "-O2"])
+        files, bcmds, gdesc = G.gen_finish_lib_program(random.Random(gseed), G.MODES[mode][0], opt)
+        key = "g%d" % gi
+        MULTI[key] = {"files": files, "build": bcmds}
+        sources[key] = files["main.c"]
+        jobs.append((key, {"finish": gdesc, "seed": ("finishlib", gseed, mode, opt), "threads": gdesc["nworkers"] + 1}, files["main.c"],
+                     {"sigs": ["finish-scenario"]}, mode, opt, "finish" if gi % 5 else "plain", False))
     for pi, (params, combos) in enumerate(plan):
         src, desc = make_prog(params)
         sources["p%d" % pi] = src
@@ -994,6 +1023,8 @@ def e2e(ctx, objdir):
             fd = params["finish"]
             tags += ["finish:" + ("tail" if fd["tail"] else "call") + "-chain=%d" % fd["chain"],
                      "finish:fired-by-" + ("worker" if fd["by_worker"] else "main")]
+            if fd.get("lib"):
+                tags.append("finish:plt-shared-slot=" + fd["lib"])
         for s in desc["sigs"]:
             for cl, ts in G.CLASSES.items():
                 if any(t in s for t in ts):
@@ -1015,7 +1046,7 @@ def e2e(ctx, objdir):
                            "native": {"exit": nat[0], "stdout": nat[1].decode(errors="replace")[-2000:]},
                            "traced": {"uftrace_rc": tr[0], "stdout": tr[1].decode(errors="replace")[-2000:],
                                       "stderr": tr[2][-1500:], "exit": tr[3]},
-                           "source": src}, True)
+                           "source": src, **({"files": MULTI[pi]["files"], "build": MULTI[pi]["build"]} if pi in MULTI else {})}, True)
     known_findings(ctx, objdir, work, osets)
     return len(results)
 
@@ -1155,9 +1186,15 @@ def run(ctx):
             ycases.append(hc)
             ctx.case(key=("hookvec", hc[1], tuple(hc[2])), tags=["hookvec:%s:level=%d" % (hc[1], hc[0]), "mxcsr:rc=%d" % ((hc[4] >> 13) & 3)])
     tcases = []
-    for i in range(ctx.n(18, 200)):
-        tree = gen_tree(ctx.rng, ["tail", "pg", "plttail", "plt", "deep"][i % 5], maxd=4, budget=10)
-        c = run_stop_case(h, tree, ctx.rng)
+    nstop = ctx.n(18, 200)
+    for i in range(nstop + ctx.n(8, 60)):
+        kinds = None
+        if i < nstop:
+            tree = gen_tree(ctx.rng, ["tail", "pg", "plttail", "plt", "deep"][i % 5], maxd=4, budget=10)
+            c = run_stop_case(h, tree, ctx.rng)
+        else:                                # every mix of hook kinds on one slot, finish met by the slot's first exit hook
+            tree, cut, kinds = gen_chain_tree(ctx.rng)
+            c = run_stop_case(h, tree, type("Cut", (), {"choice": staticmethod(lambda l, cut=cut: cut if cut in l else l[0])})())
         if c is None:
             continue
         if c["crashed"]:
@@ -1165,7 +1202,7 @@ def run(ctx):
                           {"kind": "stop", "tree": json_tree(tree), "cut": c["cut"], "stderr": c["stderr"]}, True)
             continue
         tcases.append(c)
-        ctx.case(key=("stop", coq_tree(tree), c["cut"]), tags=["finish:in-process"] +
+        ctx.case(key=("stop", coq_tree(tree), c["cut"]), tags=["finish:in-process"] + (["finish:shared-slot-kinds=" + kinds] if kinds else []) +
                  (["finish:tail-called-returns"] if "URet 1 (Real" in c["obs"] and any(o[0] == "E" and o[2] == c["slot"] for o in c["ops"][-1:]) else []))
     ecases = []
     for i in range(ctx.n(16, 200)):
@@ -1366,6 +1403,8 @@ def replay(ctx, obj):
         work = os.path.join(ctx.scratch, "e2e")
         os.makedirs(work, exist_ok=True)
         src = obj.get("source") or make_prog(obj["params"])[0]
+        if obj.get("files"):
+            MULTI["replay"] = {"files": obj["files"], "build": obj["build"]}
         exe = compile_prog(work, "replay", src, obj["mode"], obj["opt"])
         nat = run_native(exe, os.path.join(work, "nat.out"))
         tr = run_traced(objdir, exe, obj["mode"], option_sets(ctx.scratch)[obj["optset"]], os.path.join(work, "d"),
